@@ -578,3 +578,74 @@ def builder_sets_only(cx, path, field, setter_pat):
     if not cs and sts == [('self.%s' % field, P)]:
         return None
     return 'does %s / stores %s' % ([cstr(c)[:60] for c in cs], sts)
+
+
+# ------------------------------------------------------------------------------------------------- R04.11 sorted insertion into a transition chain
+def r04_11(cx):
+    """NFA::add_transition on its summaries: the walk keeps (P, N) with N = sparse[P].link; a new node is inserted as
+    Transition { byte, next, link: N } behind P (sparse[P].link = new), or at the head with link = the old head; an existing byte only
+    has its target replaced. A node spliced in with any other successor unlinks part of the chain."""
+    b = cx.body('nfa::noncontiguous::NFA::add_transition')
+    PREV, BYTE, NEXT = (cstr(param_at(b, i)) for i in (2, 3, 4))
+    loops = list(b.loops())
+    why = None
+    if len(loops) != 1:
+        cx.report('R04.11', b, 'chain-insert', False, 'add_transition: %d loops (expected the one walk along the chain)' % len(loops))
+        return
+    h = loops[0]
+    sym = Sym(cx.facts, b)
+    car = [l for l in live_in(cx.facts, b, h) if b.locals[l]['ty'] == 'util::primitives::StateID']
+    rows = loop_rows(cx.facts, b, h)
+    steps = [r for r in rows if r.end == ('stop', h)]
+    N = P = None
+    if len(car) == 2 and steps:
+        for a0, b0 in ((car[0], car[1]), (car[1], car[0])):
+            da, db = cstr(sym.default_local(a0)), cstr(sym.default_local(b0))
+            if all(cstr(canon(r.env.get(b0))) == 'core::ops::Index::index(self.sparse, %s).link' % db and cstr(canon(r.env.get(a0))) == db for r in steps):
+                P, N = da, db
+    if N is None:
+        why = 'the walk does not keep a (previous, next) pair with previous = next and next = sparse[next].link per step'
+    else:
+        NEW = '(nfa::noncontiguous::NFA::alloc_transition(self) as Ok).0'
+        HEAD = 'core::ops::Index::index(self.states, %s).sparse' % PREV
+        arr = [r for r in Sym(cx.facts, b, start=0, stop={h}).rows()]
+        for r in arr:
+            if r.end == ('stop', h):
+                pv = {cstr(sym.default_local(l)): cstr(canon(r.env.get(l))) for l in car}
+                if pv.get(P) != HEAD or pv.get(N) != 'core::ops::Index::index(self.sparse, %s).link' % HEAD:
+                    why = why or 'the walk does not start at (head, sparse[head].link)'
+
+        def check_exit(r, pred, succ, where):
+            st = [(cstr(canon(pl)), canon(v)) for pl, v in r.stores()]
+            tr = [(pl, v) for pl, v in st if is_agg(v, r'noncontiguous::Transition$')]
+            if tr:
+                if len(tr) != 1 or tr[0][0] != 'core::ops::IndexMut::index_mut(self.sparse, %s)' % NEW:
+                    return '%s: the new transition is not stored in the slot just allocated' % where
+                f0 = tr[0][1][3]
+                if cstr(f0['byte']) != BYTE or cstr(f0['next']) != NEXT:
+                    return '%s: the new transition is not (byte, next)' % where
+                if cstr(f0['link']) != succ:
+                    return '%s: the new transition is linked to %s instead of the node the walk stopped in front of (%s): the nodes in between are unlinked' % (where, cstr(f0['link'])[:60], succ[:60])
+                lk = [(pl, cstr(v)) for pl, v in st if pl == pred]
+                if lk != [(pred, NEW)]:
+                    return '%s: the predecessor is not rewired to the new transition' % where
+                if len(st) != 2:
+                    return '%s: unexpected stores %s' % (where, [pl[:50] for pl, v in st])
+            elif st:
+                # replacement of an existing byte
+                if len(st) != 1 or cstr(st[0][1]) != NEXT or not st[0][0].endswith('.next'):
+                    return '%s: unexpected stores %s' % (where, [pl[:60] for pl, v in st])
+            return None
+        ninsert = 0
+        for r in rows:
+            if r.end == 'return' and is_agg(r.ret, r'Result$', 'Ok'):
+                why = why or check_exit(r, 'core::ops::IndexMut::index_mut(self.sparse, %s).link' % P, N, 'after the walk')
+                ninsert += 1 if any(is_agg(canon(v), r'noncontiguous::Transition$') for pl, v in r.stores()) else 0
+        for r in arr:
+            if r.end == 'return' and is_agg(r.ret, r'Result$', 'Ok'):
+                st = [x for x in r.stores() if not cstr(canon(x[0])).startswith('core::ops::IndexMut::index_mut(self.dense')]
+                r2 = type('R', (), {'stores': lambda self, st=st: st})()
+                why = why or check_exit(r2, 'core::ops::IndexMut::index_mut(self.states, %s).sparse' % PREV, HEAD, 'at the head')
+        if ninsert == 0:
+            why = why or 'no path inserts a transition behind the walk'
+    cx.report('R04.11', b, 'chain-insert', why is None, 'add_transition inserts Transition { byte, next, link: N } between P and N = sparse[P].link (or in front of the head), and only replaces the target of an existing byte' if why is None else 'add_transition: ' + why)
